@@ -80,7 +80,15 @@ func TestVerifC05A(t *testing.T) {
 
 	for rI := 0; rI < reps; rI++ {
 		for _, kind := range groupKinds {
-			for _, jw := range [][2]int{{0, 100}, {1, 100}, {5, 100}, {120, 100}, {1, 3}, {5, 3}} {
+			points := [][2]int{{0, 100}, {1, 100}, {5, 100}, {120, 100}, {1, 3}, {5, 3}}
+			if rI == 0 {
+				// announcement points at which the counter's encoding grows (varint: 127|128, 16383|16384) and one in between
+				points = append(points, [2]int{127, 100}, [2]int{128, 100}, [2]int{300, 100})
+				if verifkit.Thorough() {
+					points = append(points, [2]int{16383, 100}, [2]int{16384, 100})
+				}
+			}
+			for _, jw := range points {
 				// (announcement point, key window of every store): with a window of 3 the nine messages sealed after the
 				// announcement make the receiver's window slide past everything it precomputed at registration
 				j, win := jw[0], jw[1]
